@@ -35,6 +35,7 @@ enum Task {
     LegReq(u64, Expr, usize, Box<Task>),
     Both(u64, Expr, usize, u64, Expr, usize, Box<Task>),
     BothL(u64, Expr, usize, u64, Expr, usize, Box<Task>),
+    BothJ(usize, u64, Expr, usize, Box<Task>),
     Race(u64, Expr, u64, Expr, usize, Box<Task>),
 }
 #[derive(Clone, Debug)]
@@ -87,6 +88,7 @@ impl Task {
             Task::LegReq(t, e, x, k) => format!("(TLegReq {} {} {} {})", t, e.coq(), x, k.coq()),
             Task::Both(t1, e1, x1, t2, e2, x2, k) => format!("(TBoth {} {} {} {} {} {} {})", t1, e1.coq(), x1, t2, e2.coq(), x2, k.coq()),
             Task::BothL(t1, e1, x1, t2, e2, x2, k) => format!("(TBothL {} {} {} {} {} {} {})", t1, e1.coq(), x1, t2, e2.coq(), x2, k.coq()),
+            Task::BothJ(h, t, e, x, k) => format!("(TBothJ {} {} {} {} {})", h, t, e.coq(), x, k.coq()),
             Task::Race(t1, e1, t2, e2, x, k) => format!("(TRace {} {} {} {} {} {})", t1, e1.coq(), t2, e2.coq(), x, k.coq()),
         }
     }
@@ -94,6 +96,7 @@ impl Task {
         match self {
             Task::Ret => 1,
             Task::Emit(_, _, k) | Task::Notify(_, _, k) | Task::Req(_, _, _, k) | Task::LegReq(_, _, _, k) | Task::Join(_, k) | Task::AbortT(_, k) | Task::Yield(_, k) | Task::AbortC(_, k) => 1 + k.size(),
+            Task::BothJ(_, _, _, _, k) => 2 + k.size(),
             Task::Both(_, _, _, _, _, _, k) | Task::BothL(_, _, _, _, _, _, k) | Task::Race(_, _, _, _, _, k) => 2 + k.size(),
             Task::ForEach(_, _, _, b, k) | Task::Spawn(b, _, k) => 1 + b.size() + k.size(),
         }
@@ -103,7 +106,7 @@ impl Task {
             Task::Ret => ("TRet", vec![]), Task::Emit(_, _, k) => ("TEmit", vec![k]), Task::Notify(_, _, k) => ("TNotify", vec![k]),
             Task::Req(_, _, _, k) => ("TReq", vec![k]), Task::LegReq(_, _, _, k) => ("TLegReq", vec![k]), Task::ForEach(_, _, _, b, k) => ("TForEach", vec![b, k]),
             Task::Spawn(b, _, k) => ("TSpawn", vec![b, k]), Task::Join(_, k) => ("TJoin", vec![k]), Task::AbortT(_, k) => ("TAbortT", vec![k]), Task::Yield(_, k) => ("TYield", vec![k]), Task::AbortC(_, k) => ("TAbortC", vec![k]),
-            Task::Both(_, _, _, _, _, _, k) => ("TBoth", vec![k]), Task::BothL(_, _, _, _, _, _, k) => ("TBothL", vec![k]), Task::Race(_, _, _, _, _, k) => ("TRace", vec![k]),
+            Task::Both(_, _, _, _, _, _, k) => ("TBoth", vec![k]), Task::BothL(_, _, _, _, _, _, k) => ("TBothL", vec![k]), Task::BothJ(_, _, _, _, k) => ("TBothJ", vec![k]), Task::Race(_, _, _, _, _, k) => ("TRace", vec![k]),
         };
         *h.entry(name).or_default() += 1;
         for s in subs { s.hist(h); }
@@ -255,6 +258,13 @@ fn exec<'a>(t: &'a Task, env: &'a mut Env, ctx: &'a Ctx, aborts: &'a Aborts) -> 
                     }
                     cur = k;
                 }
+                Task::BothJ(h, tg, e, x, k) => {
+                    // join!(handle, request): the handle is polled again every time the task is polled for the request's sake
+                    let f2 = ctx.request_from_shell(Op { tag: *tg, val: e.eval(&env.vars) });
+                    let b = match env.handles.get(h) { Some(jh) => { let f1 = (jh.join)(); futures::join!(f1, f2).1 } None => f2.await };
+                    env.set(*x, b);
+                    cur = k;
+                }
                 Task::Race(t1, e1, t2, e2, x, k) => {
                     let out = {
                         let mut f1 = ctx.request_from_shell(Op { tag: *t1, val: e1.eval(&env.vars) }).fuse();
@@ -372,10 +382,14 @@ impl Gen {
                          let rest = if self.legacy { rest } else { match self.rng.below(10) {
                              0 | 1 => Task::AbortT(h, Box::new(Task::Join(h, Box::new(rest)))),
                              2 => Task::AbortT(h, Box::new(rest)),
-                             3 | 4 | 5 => Task::Join(h, Box::new(rest)),
+                             3 | 4 => Task::Join(h, Box::new(rest)),
+                             5 | 6 => { let tg = self.tag(); Task::BothJ(h, tg, Expr::K(self.rng.below(4)), 7, Box::new(rest)) }
                              _ => rest } };
                          Task::Spawn(Box::new(child), h, Box::new(rest)) }
-            84..=90 if !handles.is_empty() => { let h = *self.rng.pick(handles); Task::Join(h, Box::new(self.task(budget, nvars, handles, depth))) }
+            84..=90 if !handles.is_empty() => { let h = *self.rng.pick(handles);
+                if !self.legacy && self.rng.coin(1, 2) { let tg = self.tag(); let e = self.expr(nvars); let x = (self.rng.below((nvars as u64 + 1).min(8))) as usize; *budget -= 1;
+                    return Task::BothJ(h, tg, e, x, Box::new(self.task(budget, nvars.max(x + 1), handles, depth))); }
+                Task::Join(h, Box::new(self.task(budget, nvars, handles, depth))) }
             91..=95 if !handles.is_empty() => { let h = *self.rng.pick(handles); Task::AbortT(h, Box::new(self.task(budget, nvars, handles, depth))) }
             96..=97 => { let n = 1 + self.rng.below(2); Task::Yield(n, Box::new(self.task(budget, nvars, handles, depth))) }
             98 => { let t1 = self.tag(); let t2 = self.tag(); let e1 = self.expr(nvars); let e2 = self.expr(nvars);
@@ -824,7 +838,7 @@ mod legacy {
                         cur = k;
                     }
                     Task::Yield(n, k) => { YieldN(*n).await; cur = k; }
-                    Task::Join(_, k) | Task::AbortT(_, k) | Task::AbortC(_, k) => { cur = k; }
+                    Task::Join(_, k) | Task::AbortT(_, k) | Task::AbortC(_, k) | Task::BothJ(_, _, _, _, k) => { cur = k; }
                     Task::Both(_, _, _, _, _, _, k) | Task::BothL(_, _, _, _, _, _, k) | Task::Race(_, _, _, _, _, k) => { cur = k; }
                 }
             }
@@ -941,6 +955,7 @@ fn retag_task(t: &mut Task, n: &mut u64) {
     match t {
         Task::Ret => {}
         Task::Emit(_, _, k) | Task::Join(_, k) | Task::AbortT(_, k) | Task::Yield(_, k) | Task::AbortC(_, k) => retag_task(k, n),
+        Task::BothJ(_, t, _, _, k) => { *t = fresh(n); retag_task(k, n) }
         Task::Notify(tg, _, k) | Task::Req(tg, _, _, k) | Task::LegReq(tg, _, _, k) => { *tg = fresh(n); retag_task(k, n) }
         Task::ForEach(tg, _, _, b, k) => { *tg = fresh(n); retag_task(b, n); retag_task(k, n) }
         Task::Spawn(c, _, k) => { retag_task(c, n); retag_task(k, n) }
@@ -1093,6 +1108,7 @@ fn p_task(x: &Sx) -> Task {
         "TLegReq" => Task::LegReq(a[0].n(), p_expr(&a[1]), a[2].n() as usize, b(3)),
         "TBoth" => Task::Both(a[0].n(), p_expr(&a[1]), a[2].n() as usize, a[3].n(), p_expr(&a[4]), a[5].n() as usize, b(6)),
         "TBothL" => Task::BothL(a[0].n(), p_expr(&a[1]), a[2].n() as usize, a[3].n(), p_expr(&a[4]), a[5].n() as usize, b(6)),
+        "TBothJ" => Task::BothJ(a[0].n() as usize, a[1].n(), p_expr(&a[2]), a[3].n() as usize, b(4)),
         "TRace" => Task::Race(a[0].n(), p_expr(&a[1]), a[2].n(), p_expr(&a[3]), a[4].n() as usize, b(5)),
         _ => panic!("task {}", h),
     }
